@@ -6,7 +6,6 @@ import (
 	"context"
 	"errors"
 	"fmt"
-	"runtime"
 	"sort"
 	"sync"
 	"testing"
@@ -89,8 +88,6 @@ func (s tspec) RunTask(ctx context.Context, _ *zap.Logger, e *env) error {
 }
 
 func runTasks(t *testing.T, tr *vh.Trace, tid string, beh []Cmd) {
-	before := runtime.NumGoroutine()
-
 	synctest.Test(t, func(t *testing.T) {
 		ctx, cancel := context.WithCancel(context.Background())
 		defer cancel()
@@ -98,7 +95,6 @@ func runTasks(t *testing.T, tr *vh.Trace, tid string, beh []Cmd) {
 		e := &env{inside: map[Inst]chan string{}}
 		runner := task.NewRunner[*env, tspec](func(x, y tspec) bool { return x.ver == y.ver })
 		logger := zap.NewNop()
-		inBubble := runtime.NumGoroutine()
 
 		tr.Emit(Line{Ev: "reset", Tid: tid, Should: []Inst{}, Live: []Inst{}})
 
@@ -167,10 +163,8 @@ func runTasks(t *testing.T, tr *vh.Trace, tid string, beh []Cmd) {
 		runner.Stop()
 		synctest.Wait()
 
-		tr.Emit(Line{Ev: "end", Tid: tid, Should: []Inst{}, Live: snapshot(), Leaked: runtime.NumGoroutine() - inBubble})
+		tr.Emit(Line{Ev: "end", Tid: tid, Should: []Inst{}, Live: snapshot(), Leaked: leakedTasks()})
 	})
-
-	_ = before
 }
 
 func TestTaskRunner(t *testing.T) {
@@ -190,4 +184,12 @@ func TestTaskRunner(t *testing.T) {
 	for i, b := range behs {
 		runTasks(t, tr, fmt.Sprintf("t#%d", i), b)
 	}
+}
+
+// leakedTasks counts the goroutines still executing code of pkg/task (by stack content: the process-wide goroutine count is
+// noisy under load).
+func leakedTasks() int {
+	n, _ := vh.GoroutinesIn("github.com/cosi-project/runtime/pkg/task")
+
+	return n
 }
